@@ -66,12 +66,37 @@ pub fn tol_of(writer: &str, precision: usize) -> Tol {
     }
 }
 
-/// is the printed figure `num/den` within the tolerance?
+thread_local! {
+    /// every (request to the model's `printedOK`, verdict of the float check below) of this run
+    pub static FIGS: std::cell::RefCell<Option<Vec<(String, bool)>>> = std::cell::RefCell::new(None);
+}
+
+/// is the printed figure `num/den` within the tolerance? The audited definition of the tolerance
+/// is `Stats/Printed.lean` (`tolOf`, `printedOK`, exact rationals); this float evaluation is what
+/// the oracles and the shrinker use, and `run` checks at the end that the two agree on every figure
+/// that was evaluated.
 pub fn close(fig: &Fig, num: u128, den: u128, tol: Tol) -> bool {
-    match fig.value() {
+    let ok = match fig.value() {
         Some(v) if den != 0 => (v - num as f64 / den as f64).abs() <= tol.bound(),
         _ => false,
+    };
+    let w = match tol {
+        Tol::Half(p, e) if e == EPS64 => Some(("covdir", p)),
+        Tol::Half(p, _) => Some(("markdown", p)),
+        Tol::Abs(e) if e == 1e-12 => Some(("cobertura", 0)),
+        Tol::Abs(e) if e == 1e-6 => Some(("ade", 0)),
+        _ => None,
+    };
+    if let Some((w, p)) = w {
+        FIGS.with(|f| {
+            if let Some(v) = f.borrow_mut().as_mut() {
+                if v.len() < 40_000 {
+                    v.push((format!("printed {} {} {} {} {}", w, p, num, den, hex(fig.0.trim().as_bytes())), ok));
+                }
+            }
+        });
     }
+    ok
 }
 
 /// the rate part of the property for one figure: finite, inside [0, scale], and equal to
@@ -324,6 +349,19 @@ fn obs_covdir(env: &Env, case: &Case, text: &str) -> Result<Obs, String> {
     let want: (u64, u64) = case.files.iter().fold((0, 0), |a, f| (a.0 + lines_total(&f.cov), a.1 + lines_hit(&f.cov)));
     if (nodes[0].total, nodes[0].covered) != want {
         fail(&mut of, format!("covdir root: (total,covered) = {:?}, the records sum to {:?}", (nodes[0].total, nodes[0].covered), want));
+    }
+    // matcher of the known finding C03-covdir-name-collision: the filed paths collide (same path
+    // twice, or a file path that is a directory of another result) and what fails is what the
+    // `children` map drops: a file missing / replaced, or a total that is not the sum of the listed
+    // children
+    if has_name_collision(env, case) {
+        for f in of.iter_mut() {
+            if f.finding.is_none()
+                && (f.what.contains("but its children sum to") || f.what.contains("file nodes for") || f.what.contains("not in the tree") || f.what.contains("the record has"))
+            {
+                f.finding = Some("C03-covdir-name-collision");
+            }
+        }
     }
     Ok(Obs {
         canon: format!("ok {}", toks.join(" ")),
